@@ -50,7 +50,11 @@ def gen_case(rng, tier):
         else:
             op['expr'] = {'kind': 'path', 'path': rng.choice(STRUCT_PATHS)}
         ops.append(op)
-    return {'config': {'spec': spec, 'xml': xml, 'facts': facts, 'trees': trees}, 'ops': ops}
+    cfg = {'spec': spec, 'xml': xml, 'facts': facts, 'trees': trees}
+    if rng.random() < 0.15:
+        # the schema object is created unbuilt and is built in the middle of the history (same proxy object)
+        cfg['late_build'] = rng.randrange(0, max(1, nops - 1))
+    return {'config': cfg, 'ops': ops}
 
 
 def expr_text(e, facts):
@@ -177,11 +181,14 @@ def run_case(case, world):
     violations = []
     stats = {'ops': 0, 'evaluations': 0, 'typed_value_checks': 0, 'node_list_checks': 0, 'clean_room_forks': 0,
              'schema_swaps': 0}
+    late = cfg.get('late_build')
+    built = [late is None]
     try:
-        schema_a = xmlschema.XMLSchema(G.render_schema(cfg['spec'], 'A'))
+        check_a = xmlschema.XMLSchema(G.render_schema(cfg['spec'], 'A'))
         schema_b = xmlschema.XMLSchema(G.render_schema(cfg['spec'], 'B'))
-        if not schema_a.is_valid(cfg['xml']) or not schema_b.is_valid(cfg['xml']):
+        if not check_a.is_valid(cfg['xml']) or not schema_b.is_valid(cfg['xml']):
             return {'violations': [], 'stats': stats, 'nontrivial': [], 'skipped': 'instance not valid'}
+        schema_a = check_a if late is None else xmlschema.XMLSchema(G.render_schema(cfg['spec'], 'A'), build=False)
     except Exception as e:
         return {'violations': [], 'stats': stats, 'nontrivial': [], 'harness_error': 'schema build: %r' % e}
     proxies = {'A': XMLSchemaProxy(schema_a), 'B': XMLSchemaProxy(schema_b), None: None}
@@ -195,7 +202,7 @@ def run_case(case, world):
         violations.append({'cls': cls, 'signature': signature, 'detail': detail, 'features': sorted(set(features))})
 
     def ref_for(form, text, sk, via):
-        key = (form, text, sk, via)
+        key = (form, text, sk, via, built[0])
         if key not in refs:
             st, val = runner.fork_call(lambda: clean_room(cfg['xml'], form, text, proxies[sk], via), timeout=60)
             refs[key] = val if st == 'ok' else ['ref-failed', st]
@@ -214,6 +221,14 @@ def run_case(case, world):
 
     for idx, op in enumerate(case['ops']):
         stats['ops'] += 1
+        if late is not None and idx == late and not built[0]:
+            schema_a.build()
+            built[0] = True
+            world.probe('schema-built-in-the-middle-of-the-history')
+            # node trees typed while the schema was unbuilt are not carried across the build (a schema that changes
+            # under a tree that refers to it is outside the statement); the proxy object IS carried across
+            trees[:] = [build_tree(cfg['xml'], f) for f in cfg['trees']]
+            last_schema.clear()
         ti = op['tree'] % len(trees)
         form = cfg['trees'][ti]
         tree = trees[ti]
@@ -248,7 +263,7 @@ def run_case(case, world):
                         text, ti, form, sk, outcome, ref), feats)
         # (ii) typed values
         e = op['expr']
-        if sk is not None and e['kind'] == 'data' and outcome[0] == 'ok' and cfg['facts']:
+        if sk is not None and e['kind'] == 'data' and outcome[0] == 'ok' and cfg['facts'] and (built[0] or sk != 'A'):
             f = cfg['facts'][e['fact'] % len(cfg['facts'])]
             tkey = f['type'] if sk == 'A' else G.SUPERTYPE[f['type']]
             kind = G.TYPES[tkey][1]
@@ -273,7 +288,7 @@ def run_case(case, world):
                     violate('TYPED_VALUE', 'typed-value-wrong-class:%s' % tkey,
                             'data() of %s (type %s) has classes %r' % (f['path'], G.TYPES[tkey][0],
                                                                         [type(x).__name__ for x in items]), feats + extra)
-        if sk == 'A' and e['kind'] == 'instance' and cfg['facts'] and outcome[0] == 'ok' and ref == outcome:
+        if sk == 'A' and built[0] and e['kind'] == 'instance' and cfg['facts'] and outcome[0] == 'ok' and ref == outcome:
             f = cfg['facts'][e['fact'] % len(cfg['facts'])]
             if G.TYPES[f['type']][2] and outcome[1] != ['bool', True] and not f.get('simple_content'):
                 extra = ['type:' + f['type']]
@@ -283,7 +298,7 @@ def run_case(case, world):
                 violate('TYPED_VALUE', 'instance-of-declared-type-false:%s' % f['type'],
                         '%s is %r' % (text, outcome[1]), feats + extra)
         # (iii) schema never changes node selection of structural paths
-        if e['kind'] == 'path' and sk is not None:
+        if e['kind'] == 'path' and sk is not None and (built[0] or sk != 'A'):
             stats['node_list_checks'] += 1
             plain = ref_for(form, text, None, op.get('via', 'select'))
             if plain[0] != 'ref-failed' and ref[0] != 'ref-failed' and plain[:2] != ref[:2]:
